@@ -49,7 +49,10 @@ Judge(r) ==
          CASE r.op = "add"  -> r.out.k \in {"some", "none"} /\ Obs(r.out) = B!AddDur(Val(r.a), Val(r.b))
            [] r.op = "sub"  -> r.out.k \in {"some", "none"} /\ Obs(r.out) = B!SubDur(Val(r.a), Val(r.b))
            [] r.op = "diff" -> r.out.k \in {"some", "none"} /\ Obs(r.out) = B!Diff(Val(r.a), Val(r.b))
-           [] r.op = "to_timespec" -> r.out.k \in {"some", "none"} /\ Obs(r.out) = B!ToTime(Val(r.a))
+           \* TryFrom<Duration> for TimeSpec is not named by the statement; it matters through sleep(d):
+           \* a representable duration must convert exactly, for the others only panic-freedom is asked
+           [] r.op = "to_timespec" -> /\ r.out.k \in {"some", "none"}
+                                      /\ B!ToTime(Val(r.a)).some => Obs(r.out) = B!ToTime(Val(r.a))
            [] r.op = "since_unix" -> r.out.k = "some" /\ Obs(r.out) = B!Diff(Val(r.a), Val(r.b))
            \* Instant::elapsed = now - a, with the unknown `now` between the readings b (before) and c (after)
            [] r.op = "elapsed" ->
